@@ -295,6 +295,11 @@ func (s *Server) serveOne(ctx context.Context, r io.Reader, w io.Writer, shmConn
 			}
 			s.logIPCWriteErr("error-response", req.Method,
 				writeErrorResponse(w, errSchema, pverr, s.serverID, req.RequestID, s.debugErrors))
+			if methodTypeString(info.Type) == DispatchMethodStream {
+				// The client has already written the stream's input; drain it
+				// so it is not read as the next request.
+				drainInputStream(r)
+			}
 			return nil
 		}
 	}
